@@ -4,7 +4,7 @@
  * when the pool already retains an empty block or immediate release is configured (otherwise it counts it as the retained one);
  * NULL and pointers outside every block are rejected without change. query reports exactly the live allocation starting at `rx`
  * (both views, byte size, owning block) and rejects pointers to free granules and foreign pointers.
- * The address tree is abstracted: ArenaTree::get returns the block whose executable view contains the pointer (ASSUMED contract).
+ * The address tree is abstracted: ArenaTree::get returns the block whose executable view contains the pointer (ASSUMED stub).
  * `rx` is the start of a live allocation, a free granule of the block, a pointer outside every block, or NULL (ghost g_kind). */
 #include "contracts/c09_shrink.h"
 #if defined(HAVE_STRUCT_JitAllocatorBlock) && defined(HAVE_STRUCT_JitAllocatorPrivateImpl) && defined(HAVE_STRUCT_JitAllocator)
@@ -18,9 +18,12 @@ uint64_t g_count0; uint8_t g_empty0; uint32_t g_rm_calls, g_del_calls; struct Ji
    __CPROVER_havoc_object(&g_kind), __CPROVER_havoc_object(&g_blk), __CPROVER_havoc_object(&g_count0), __CPROVER_havoc_object(&g_empty0), g_rm_calls = 0, g_del_calls = 0, g_rm_blk = NULL, g_del_blk = NULL)
 #define IMPL(self) ((struct JitAllocatorPrivateImpl*)(self)->_impl)
 
-#define CONTRACT_ArenaTree_JitAllocatorBlock_get_u8_p_Support_Compare_Support_SortOrder_kAscending \
-  __CPROVER_assigns() \
-  __CPROVER_ensures(__CPROVER_same_object(*key, g_rx0) ? PINS(__CPROVER_return_value, g_blk) : __CPROVER_return_value == NULL)
+/* ASSUMED model of the address tree lookup, as a C stub: the block whose executable view contains the pointer, else NULL. (As a replaced
+ * contract - `ensures(pointer_in_range(g_blk, return_value, g_blk))` - this made CBMC's propositional conversion run out of memory: > 28 GB,
+ * growing with the size of the mapping object; with the stub the units take seconds.) */
+struct JitAllocatorBlock *ArenaTree_JitAllocatorBlock_get_u8_p_Support_Compare_Support_SortOrder_kAscending(struct ArenaTree_JitAllocatorBlock *self, uint8_t **key, struct Support_Compare_Support_SortOrder_kAscending *cmp) {
+  return __CPROVER_same_object(*key, g_rx0) ? g_blk : (struct JitAllocatorBlock*)0;
+}
 #define CONTRACT_JitAllocatorImpl_removeBlock \
   __CPROVER_assigns(g_rm_calls, g_rm_blk) __CPROVER_ensures(g_rm_calls == __CPROVER_old(g_rm_calls) + 1 && g_rm_blk == block)
 #define CONTRACT_JitAllocatorImpl_deleteBlock \
